@@ -90,6 +90,14 @@ CHECKS = {'C01': {'level': 'exploration',
          'tests': [{'run': '^TestC06$',
                     'checks': {'quick': 200, 'thorough': 2500},
                     'shards': {'quick': 1, 'thorough': 8},
+                    'timeout': {'quick': 900, 'thorough': 3400}},
+                   {'run': '^TestSchedWriters$',
+                    'checks': {'quick': 1500, 'thorough': 20000},
+                    'shards': {'quick': 1, 'thorough': 8},
+                    'env': {'VERIF_PROP': 'C06'},
+                    'timeout': {'quick': 900, 'thorough': 3400}},
+                   {'run': '^TestSchedWritersExhaustive$',
+                    'env': {'VERIF_PROP': 'C06', 'VERIF_SCHED_LIMIT': {'quick': 2500, 'thorough': 200000}},
                     'timeout': {'quick': 900, 'thorough': 3400}}]},
  'C07': {'level': 'exploration',
          'rule': 'model-based stateful histories over all column kinds (enum, bool, record, key, expire, late columns, custom merges), all Capacity '
@@ -104,6 +112,32 @@ CHECKS = {'C01': {'level': 'exploration',
          'tests': [{'run': '^TestC07$',
                     'checks': {'quick': 250, 'thorough': 2500},
                     'shards': {'quick': 1, 'thorough': 16},
+                    'timeout': {'quick': 900, 'thorough': 3400}}]},
+ 'C09': {'level': 'exploration',
+         'rule': 'controlled-schedule part: generated programs of 2..4 writer tasks (1..2 transactions each, 1..4 steps: merges and puts into SHARED '
+                 'rows of 1..3 blocks through an additive int merge, an order-sensitive int merge v*3+d and an order-sensitive same-length string '
+                 'merge; deletes of privately owned rows; inserts) run under the cooperative scheduler, which owns every context switch at '
+                 'commit:pre-latch / commit:post-latch and at drawn points inside transaction bodies; schedules are drawn by rapid and, for four '
+                 'fixed configurations, enumerated exhaustively (see exhaustive_over). Oracle: the recording logger gives the per-block apply order; '
+                 'the final primary state must equal the initial state with every committed transaction part folded in that order, and every emitted '
+                 'commit must carry, as PUTS, exactly the successive folds (no deltas). free-parallel part: 2..16 goroutines x 20..200 single-merge '
+                 'transactions over all 10 numeric kinds on rows in 1..2 blocks with a concurrent Range reader; final value == initial + sum of all '
+                 'deltas. non-trivial = two tasks merged into the same row and their commits on that block were adjacent in apply order (schedules) '
+                 '/ >=2 workers contended (parallel); distinct = program + schedule',
+         'assumptions': ["context switches happen only at the verif yield points and body yields (windows inside one buffer's apply loop are reached "
+                         'only by the free-parallel part)',
+                         'shared rows are never deleted by the generated programs (so the fold is well defined)'],
+         'tests': [{'run': '^TestSchedWriters$',
+                    'checks': {'quick': 1500, 'thorough': 20000},
+                    'shards': {'quick': 1, 'thorough': 8},
+                    'env': {'VERIF_PROP': 'C09'},
+                    'timeout': {'quick': 900, 'thorough': 3400}},
+                   {'run': '^TestSchedWritersExhaustive$',
+                    'env': {'VERIF_PROP': 'C09', 'VERIF_SCHED_LIMIT': {'quick': 2500, 'thorough': 200000}},
+                    'timeout': {'quick': 900, 'thorough': 3400}},
+                   {'run': '^TestC09Parallel$',
+                    'checks': {'quick': 60, 'thorough': 1500},
+                    'shards': {'quick': 1, 'thorough': 2},
                     'timeout': {'quick': 900, 'thorough': 3400}}]},
  'C11': {'level': 'exploration',
          'rule': 'sequential part (model-based, rapid): fill actions of 1,2,63,64,65,127,128,129,16383,16384,16385 rows storing into EVERY column, '
@@ -196,6 +230,14 @@ CHECKS = {'C01': {'level': 'exploration',
          'tests': [{'run': '^TestC15$',
                     'checks': {'quick': 250, 'thorough': 2500},
                     'shards': {'quick': 1, 'thorough': 8},
+                    'timeout': {'quick': 900, 'thorough': 3400}},
+                   {'run': '^TestSchedWriters$',
+                    'checks': {'quick': 1500, 'thorough': 20000},
+                    'shards': {'quick': 1, 'thorough': 8},
+                    'env': {'VERIF_PROP': 'C15'},
+                    'timeout': {'quick': 900, 'thorough': 3400}},
+                   {'run': '^TestSchedWritersExhaustive$',
+                    'env': {'VERIF_PROP': 'C15', 'VERIF_SCHED_LIMIT': {'quick': 2500, 'thorough': 200000}},
                     'timeout': {'quick': 900, 'thorough': 3400}}]},
  'C16': {'level': 'exploration',
          'rule': 'model-based stateful histories over a string column whose values come from a 5-value alphabet with forced duplicates (incl. the '
